@@ -79,15 +79,15 @@ CHECKS = {
    ref="DESIGN.md §6 C18", note="trusted base: the grammar and renderer in harness/props/web.go, rapid; findings KF-C18-empty-fragment and KF-C18-nested-dots attributed by counterfactual classifiers"),
  "C02": dict(
    technique="stateful property-based testing / robustness fuzzing (rapid): generated configurations x generated API programs over a register file of URLs, recover() around every step, (nil, nil) contract, hang watchdog confirmed in a fresh process",
-   text="A configuration (predefined profile, or 0..6 of 25 options with valued options from families incl. special-scheme maps without file, encoding overrides, generated encode sets, total host callbacks) and a program (initial parse with hostile / arbitrary / very long arguments, then up to 12 setter, resolve, clone, SearchParams, SetSearchParams, encode/decode and profile operations) are executed with all getters called after every step; any panic, (nil, nil) result or non-returning call is a violation.",
+   text="A configuration (predefined profile, or 0..6 of 25 options with valued options from families incl. special-scheme maps without file, encoding overrides, generated encode sets, total host callbacks) and a program (initial parse with hostile / arbitrary / very long arguments, then up to 12 setter, resolve, clone, SearchParams (incl. Iterate callbacks that call back into the same list), SetSearchParams, BasicParser with the setters' state overrides, NewUrl, encode/decode and profile operations) are executed with all getters called after every step; any panic, (nil, nil) result or non-returning call is a violation.",
    ref="DESIGN.md §6 C02, §7.8", note="trusted base: recover()/watchdog harness in harness/props/c02.go and harness/core, rapid"),
  "C14": dict(
    technique="property-based testing (rapid) over generated concurrent programs on shared parsers / profiles / base URLs, executed under the Go race detector (-race), with a sequential-equivalence oracle and table-immutability fingerprints",
-   text="Generated programs of 2..8 goroutines released from one barrier run read-only operations (parse, resolve against shared bases with and without lazily created state, getters, Clone, encode, set derivation) on one shared parser or profile; the race detector's log must not grow, every result must equal the same call run alone on private copies, and all package-level tables must be unchanged.",
+   text="Generated programs of 2..8 goroutines released from one barrier run read-only operations (parse, resolve against shared bases with and without lazily created state, getters, reads through a parameter-list handle created before sharing, Clone, NewUrl followed by setters on the private value, encode, set derivation) on one shared parser or profile; the race detector's log must not grow, every result must equal the same call run alone on private copies, and all package-level tables must be unchanged.",
    ref="DESIGN.md §6 C14, §8", note="trusted base: Go race detector (happens-before), the harness in harness/props/c14.go, rapid; interleavings are those the scheduler produced, not enumerated"),
  "C20": dict(
    technique="property-based testing (rapid) over generated repetition families plus a fixed family table, with deterministic cost counters (bytes allocated, allocation count, statements executed via a -cover build) and a growth-exponent oracle",
-   text="For each repetition family (fixed list covering every place the statement names; generated families by insertion point, unit and operation) the measured operation is run at n, 4n and 16n and the growth exponent of bytes allocated, allocation count and (fixed families) statements executed inside the library is computed; a violation needs an exponent above 1.5 at the largest pair and above 1.4 at the pair below. Counters are deterministic; CPU time is not used.",
+   text="For each repetition family prefix + unit×n + suffix, and two-part family prefix + unit×n + mid + unit2×n + suffix where the second repetition works on what the first built up (fixed list covering every place the statement names, incl. nested escapes and parameters a profile rewrites; generated families by insertion point, units and operation) the measured operation is run at n, 4n and 16n and the growth exponent of bytes allocated, allocation count and (fixed families) statements executed inside the library is computed; a violation needs an exponent above 1.5 at the largest pair and above 1.4 at the pair below. Counters are deterministic; CPU time is not used.",
    ref="DESIGN.md §6 C20, §8", note="trusted base: runtime.MemStats counters, Go coverage counters (go build -cover, runtime/coverage, go tool covdata), the family table in harness/props/c20.go"),
 }
 
